@@ -407,7 +407,30 @@ func (c *client) CreateProducer(ctx context.Context, o mqcommon.ProducerOptions)
 	return &producer{b: c.b, t: c.b.topic(o.Topic)}, nil
 }
 
+// denied reports whether subscriptions to the topic are refused at the moment: a file broker reads the list of refused
+// topic name parts from <dir>/deny.list (one per line; written and removed by the rig's supervisor, which owns the
+// "message queue": a queue that cannot be reached for some topics for a while).
+func (b *Broker) denied(topic string) bool {
+	if b.dir == "" {
+		return false
+	}
+	raw, err := os.ReadFile(filepath.Join(b.dir, "deny.list"))
+	if err != nil {
+		return false
+	}
+	for _, l := range strings.Split(string(raw), "\n") {
+		if l = strings.TrimSpace(l); l != "" && strings.Contains(topic, l) {
+			return true
+		}
+	}
+	return false
+}
+
 func (c *client) Subscribe(ctx context.Context, o mqwrapper.ConsumerOptions) (mqwrapper.Consumer, error) {
+	if c.b.denied(o.Topic) {
+		// a timeout: Milvus' msgstream returns a timeout of Subscribe to its caller (any other error makes it panic)
+		return nil, fmt.Errorf("memq: topic %s cannot be reached (injected): %w", o.Topic, context.DeadlineExceeded)
+	}
 	t := c.b.topic(o.Topic)
 	cctx, cancel := context.WithCancel(context.Background())
 	cons := &consumer{b: c.b, t: t, topic: o.Topic, name: o.SubscriptionName, ctx: cctx, cancel: cancel, buf: int(o.BufSize)}
